@@ -4,6 +4,9 @@ sub-configurations (depth <= 4), in config types (make_type with a class-level k
 ListField(schema | config type); histories of key-file assignments at any node, secret assignments, list
 assignments and intermediate dumps; then a final dump in one of the five formats and a load into a NEW
 configuration object (fresh schema call) given a root key file.  Compared with Secrets.v (`run_secrets`).
+Configurations may also hold secrets inside containers, ListField(SecureField) and DictField(StringField,
+SecureField); the model sees such a container as K extra secrets of the same configuration (see `node`), the
+direct oracle checks the real document (each item a {method, ciphertext} map, no plaintext in the bytes).
 
 Observed (never ciphertext bytes: os.urandom stays real, the byte layer is C08's):
   * the key file in force at every secret field (KeyFile object actually used: cfg._keyfile.filename);
@@ -65,8 +68,28 @@ def _install():
 # kind: "sub" (sub-schema, or config-type field when node["ct"] is not None or node.get("type")) | "list"
 # a node with "type": True is wrapped by make_type (class-level key file node["ct"], possibly None)
 # ---------------------------------------------------------------------------------------------
-def node(secs, ch=(), ct=None, typ=False):
-    return {"ct": ct, "type": bool(typ or ct is not None), "secs": list(secs), "ch": list(ch)}
+K = 3                      # capacity of a ListField(SecureField) in the generated histories
+DKEYS = ["a", "b", "c"]    # keys used in a DictField(StringField, SecureField)
+
+
+def node(secs, ch=(), ct=None, typ=False, cont=()):
+    """cont: [(name, "slist" | "sdict", method)] -- ListField(SecureField(method)) / DictField(StringField(),
+    SecureField(method)) of this configuration.  For the model such a container IS K extra secrets of the same
+    configuration, named name[0..K-1] / name[a|b|c] (same key file, same method, one key-file context per
+    non-empty item); the harness flattens the rendered list / map accordingly before the comparison."""
+    return {"ct": ct, "type": bool(typ or ct is not None), "secs": list(secs), "ch": list(ch), "cont": list(cont)}
+
+
+def slots(name, kind):
+    return ["%s[%s]" % (name, i) for i in (range(K) if kind == "slist" else DKEYS)]
+
+
+def all_secs(n):
+    """the secrets of a configuration as the model sees them: declared ones, then the container slots"""
+    out = list(n["secs"])
+    for name, kind, m in n.get("cont", ()):
+        out += [(sl, m) for sl in slots(name, kind)]
+    return out
 
 
 def walk_desc(n, pos=()):
@@ -131,6 +154,11 @@ def shapes(method):
     out.append(("ct-nested", node([("pw", m)], [("a", "sub", node([("pw", m)], [("ct", "sub", node([("tok", m)], [("in", "sub", node([("pw", m)]))], ct=4))]))])))
     out.append(("list", node([("pw", m)], [("items", "list", node([("tok", m)]))])))
     out.append(("list-ct", node([("pw", m)], [("cts", "list", node([("tok", m)], ct=5))])))
+    out.append(("seclist", node([("pw", m)], [("a", "sub", node([("pw", m)], cont=[("keys", "slist", m)]))],
+                                cont=[("keys", "slist", m), ("d", "sdict", m)])))
+    out.append(("seclist-item", node([("pw", m)], [("items", "list", node([("tok", m)], [("in", "sub", node([("pw", m)], cont=[("d", "sdict", m)]))],
+                                                                        cont=[("keys", "slist", m)])),
+                                                   ("cts", "list", node([("tok", m)], ct=5, cont=[("keys", "slist", m)]))])))
     out.append(("list-deep", node([("pw", m)], [("a", "sub", node([("pw", m)], [("items", "list", node([("tok", m)], [("in", "sub", node([("pw", m)]))]))]))])))
     return out
 
@@ -144,7 +172,20 @@ def fill_ops(rng, shape, frac=1.0):
                 ops.append(("sec", pos, name, plaintext(rng)))
             elif r < frac + 0.1:
                 ops.append(("sec", pos, name, ""))
+        for name, kind, _m in n.get("cont", ()):
+            if frac > 0:
+                ops.append(random_cont_op(rng, pos, name, kind, full=True))
     return ops
+
+
+def random_cont_op(rng, pos, name, kind, full=False):
+    def val():
+        return plaintext(rng) if (full or rng.random() < 0.8) else ""
+    if kind == "slist":
+        k = rng.randint(1, K) if full else rng.randint(0, K)
+        return ("seclist", pos, name, [val() for _ in range(k)])
+    keys = [k for k in DKEYS if rng.random() < 0.7] or (["b"] if full else [])
+    return ("secdict", pos, name, [(k, val()) for k in keys])
 
 
 def mk_case(desc, existing, ops, root2, fmt, kind):
@@ -208,6 +249,11 @@ def generate(rng, tier):
 def random_desc(rng, depth=0, in_list=False):
     names = ["pw", "tok", "key2"]
     secs = [(nm, rng.choice(METHODS)) for nm in names[:rng.randint(1, 2)]]
+    cont = []
+    if rng.random() < 0.3:
+        cont.append(("keys", "slist", rng.choice(METHODS)))
+    if rng.random() < 0.2:
+        cont.append(("d", "sdict", rng.choice(METHODS)))
     ch = []
     if depth < 4:
         nsub = rng.choice([0, 1, 1, 2]) if depth < 2 else rng.choice([0, 0, 1])
@@ -227,7 +273,7 @@ def random_desc(rng, depth=0, in_list=False):
             elif r < 0.4:
                 c["type"] = True
             ch.append(("items", "list", c))
-    return node(secs, ch)
+    return node(secs, ch, cont=cont)
 
 
 def random_case(rng):
@@ -252,6 +298,12 @@ def random_case(rng):
                 ops.append(("items", p, name, k, rng.randrange(3)))
                 sh.set_items(p, name, k)
                 continue
+        if r < 0.45:
+            conts = [(p, name, kind) for p, n in nodes for name, kind, _m in n["cont"]]
+            if conts and rng.random() < 0.6:
+                p, name, kind = rng.choice(conts)
+                ops.append(random_cont_op(rng, p, name, kind))
+                continue
         if r < 0.65:
             p, n = rng.choice(nodes)
             name, _ = rng.choice(n["secs"])
@@ -271,6 +323,9 @@ def random_case(rng):
         for name, _ in n["secs"]:
             if rng.random() < 0.5:
                 ops.append(("sec", p, name, plaintext(rng)))
+        for name, kind, _m in n["cont"]:
+            if rng.random() < 0.4:
+                ops.append(random_cont_op(rng, p, name, kind))
     if rng.random() < 0.3:
         ops.append(("dump", rng.choice(FORMATS)))
         if rng.random() < 0.6:
@@ -290,13 +345,27 @@ def g_path(i):
 
 def g_node(n):
     ct = g_opt(n["ct"], g_path)
-    secs = g_list(n["secs"], lambda s: "(%s,{|s_method:=%s;s_val:=None;s_iv:=[]|})" % (g_str(s[0]), GM[s[1]]))
+    secs = g_list(all_secs(n), lambda s: "(%s,{|s_method:=%s;s_val:=None;s_iv:=[]|})" % (g_str(s[0]), GM[s[1]]))
     ch = g_list(n["ch"], lambda c: "(%s,%s)" % (g_str(c[0]), ("CSub %s" % g_node(c[2])) if c[1] == "sub" else ("CList %s []" % g_node(c[2]))))
     return "(SNode %s %s %s %s)" % (ct, ct, secs, ch)
 
 
 def g_pos(pos):
     return g_list(pos, lambda e: "StSub %s" % g_str(e[1]) if e[0] == "sub" else "StItem %s %d%%nat" % (g_str(e[1]), e[2]))
+
+
+def g_ops(ops):
+    out = []
+    for op in ops:
+        if op[0] == "seclist":
+            vals = list(op[3]) + [None] * (K - len(op[3]))
+            out += [g_op(("sec", op[1], sl, v)) for sl, v in zip(slots(op[2], "slist"), vals)]
+        elif op[0] == "secdict":
+            d = dict(op[3])
+            out += [g_op(("sec", op[1], sl, d.get(k))) for sl, k in zip(slots(op[2], "sdict"), DKEYS)]
+        else:
+            out.append(g_op(op))
+    return "[%s]" % ";".join(out)
 
 
 def g_op(op):
@@ -314,17 +383,22 @@ def g_op(op):
 def gcase(c):
     from cincoconfig.encryption import AES_AVAILABLE
     return "(%s, %s, %s, %s, %s)" % (g_bool(AES_AVAILABLE), g_list(c["existing"], g_path), g_node(c["desc"]),
-                                     g_list(c["ops"], g_op), g_opt(c["root2"], g_path))
+                                     g_ops(c["ops"]), g_opt(c["root2"], g_path))
 
 
 # ---------------------------------------------------------------------------------------------
 # implementation runner
 # ---------------------------------------------------------------------------------------------
 def _build_schema(n, paths, counter):
-    from cincoconfig import Schema, SecureField, ListField, make_type
+    from cincoconfig import Schema, SecureField, ListField, DictField, StringField, make_type
     s = Schema()
     for name, m in n["secs"]:
         setattr(s, name, SecureField(method=m))
+    for name, kind, m in n.get("cont", ()):
+        if kind == "slist":
+            setattr(s, name, ListField(SecureField(method=m)))
+        else:
+            setattr(s, name, DictField(StringField(), SecureField(method=m)))
     for name, kind, c in n["ch"]:
         sub = _build_schema(c, paths, counter)
         if c["type"]:
@@ -378,7 +452,13 @@ def _own(cfg, tbl):
 
 
 def _plain(cfg, n):
-    out = {"secs": [(cfg._data.get(name) or None) for name, _ in n["secs"]], "ch": []}
+    out = {"secs": [(cfg._data.get(name) or None) for name, _ in n["secs"]], "ch": [], "cont": []}
+    for name, kind, _m in n.get("cont", ()):
+        v = cfg._data.get(name)
+        if kind == "slist":
+            out["cont"].append([(x or None) for x in (v or [])])
+        else:
+            out["cont"].append(sorted((k, (x or None)) for k, x in (v or {}).items()))
     for name, kind, c in n["ch"]:
         v = cfg._data.get(name)
         if kind == "sub":
@@ -388,14 +468,50 @@ def _plain(cfg, n):
     return out
 
 
-def _shape(v):
-    if isinstance(v, dict):
-        if isinstance(v.get("method"), str):
-            return (v["method"],)
-        return {k: _shape(x) for k, x in v.items()}
-    if isinstance(v, (list, tuple)):
-        return [_shape(x) for x in v] or None      # unset typed list (null) = empty list
+def _leaf(v):
+    """a rendered secret with the ciphertext blanked"""
+    if isinstance(v, dict) and isinstance(v.get("method"), str):
+        return (v["method"],)
     return v
+
+
+def _shape(tree, n, bad):
+    """the to_tree document of configuration `n`, ciphertexts blanked, secret containers flattened into
+    their slots (what the model renders); `bad` collects container items that are not a
+    {method, ciphertext} map / null"""
+    out = {}
+    for name, _m in n["secs"]:
+        out[name] = _leaf(tree.get(name))
+    for name, kind, _m in n.get("cont", ()):
+        v = tree.get(name)
+        if kind == "slist":
+            items = list(v or [])
+            vals = items + [None] * (K - len(items))
+        else:
+            items = list((v or {}).values())
+            vals = [(v or {}).get(k) for k in DKEYS]
+        for it in items:
+            if it is not None and not (isinstance(it, dict) and set(it) == {"method", "ciphertext"}
+                                       and isinstance(it["ciphertext"], str) and it["ciphertext"]):
+                bad.append(name)
+        for sl, x in zip(slots(name, kind), vals):
+            out[sl] = _leaf(x)
+    for name, kind, c in n["ch"]:
+        v = tree.get(name)
+        if kind == "sub":
+            out[name] = _shape(v, c, bad)
+        else:
+            out[name] = [_shape(x, c, bad) for x in (v or [])] or None    # unset typed list (null) = empty list
+    return out
+
+
+def _values(cfg, n):
+    """every secret value this configuration holds: declared SecureFields, then items of its containers"""
+    out = [cfg._data.get(name) for name, _m in n["secs"]]
+    for name, kind, _m in n.get("cont", ()):
+        v = cfg._data.get(name)
+        out += list(v or []) if kind == "slist" else list((v or {}).values())
+    return out
 
 
 def _effects(events, exists):
@@ -440,6 +556,10 @@ def impl(c):
                     tbl[id(tgt)] = (tgt, paths[op[2]] if op[2] is not None else None)
                 elif op[0] == "sec":
                     setattr(_resolve(root, op[1]), op[2], op[3])
+                elif op[0] == "seclist":
+                    setattr(_resolve(root, op[1]), op[2], list(op[3]))
+                elif op[0] == "secdict":
+                    setattr(_resolve(root, op[1]), op[2], dict(op[3]))
                 elif op[0] == "items":
                     cfg = _resolve(root, op[1])
                     field = _item_field(cfg, op[2])
@@ -476,12 +596,11 @@ def impl(c):
                         break
                 parent_ok = (cfg._parent is (chain[-2] if len(chain) > 1 else None))
                 st["resolution"].append((used, named, want, parent_ok))
-                kfs.extend([ids.get(used, -1)] * len(n["secs"]))
+                kfs.extend([ids.get(used, -1)] * len(all_secs(n)))
             st["expected_dump"] = set()
             st["plaintexts"] = []
             for (cfg, n, chain), (used, named, want, _) in zip(nodes, st["resolution"]):
-                for name, _m in n["secs"]:
-                    v = cfg._data.get(name)
+                for v in _values(cfg, n):
                     if v:
                         st["expected_dump"].add(want)
                         st["plaintexts"].append(v)
@@ -496,7 +615,8 @@ def impl(c):
             st["f34"] = f34
             root_own = _own(root, tbl)
             st["same_root_kf"] = (ids.get(root_own, -1) if root_own is not None else None) == c["root2"]
-            shape = _shape(root.to_tree())
+            st["bad_items"] = []
+            shape = _shape(root.to_tree(), c["desc"], st["bad_items"])
             st["methods"] = []
 
             def collect(v):
@@ -538,7 +658,7 @@ def impl(c):
                         if _own(a, tbl2) is not None:
                             want = _own(a, tbl2)
                             break
-                    if any(cfg._data.get(name) for name, _m in n["secs"]):
+                    if any(_values(cfg, n)):
                         st["expected_load"].add(want)
                 if got_plain == want_plain:
                     r2, c2 = _effects(ev_load, before2)
@@ -589,6 +709,8 @@ def oracle(c, obs):
         bad.append("plaintext of a secret present in the serialised output")
     if any(m not in ("aes", "xor") for m in st["methods"]):
         bad.append("recorded encryption method is not concrete: %r" % (st["methods"],))
+    if st["bad_items"]:
+        bad.append("an item of a list/dict of secrets is not written as a {method, ciphertext} map: field(s) %s" % sorted(set(st["bad_items"])))
     if len(st["methods"]) != len(st["plaintexts"]):
         bad.append("number of encrypted values in the document differs from the number of non-empty secrets")
     if not st["touched_load"] <= st["allowed_load"]:
@@ -620,8 +742,15 @@ def tags(c, obs):
     if any(n["type"] and n["ct"] is None for _, n in descs):
         t.add("config-type-plain")
     for _, n in descs:
-        for _nm, m in n["secs"]:
+        for _nm, m in all_secs(n):
             t.add("method:" + m)
+    for p, n in descs:
+        for _nm, kind, _m in n.get("cont", ()):
+            t.add("secret-list" if kind == "slist" else "secret-dict")
+            if any(e[0] == "list" for e in p):
+                t.add("secret-container-in-item")
+            elif p:
+                t.add("secret-container-nested")
     seen_dump = False
     for op in c["ops"]:
         if op[0] == "dump":
